@@ -1,9 +1,10 @@
 """C02 — AOEF documents are self-contained and resolvable in a single pass."""
 import copy
+import json
 import random
 
 from ..core import Op, canon_exc
-from .. import aoef, aoefgen, aoef_impl
+from .. import aoef, aoefgen, aoef_impl, aoef_schema, c02gen
 
 PROPERTY = "C02"
 LEAN_MODULE = "Proofs.C02Refine"      # imports Proofs.C02 and Proofs.C02Adapter
@@ -14,48 +15,336 @@ _THEOREM_NAMES = ["C02_trav_iff_reachable", "C02_exact", "C02_exact_reachable", 
                   "C02_adapter_load_is_addAll", "C02_tag_ids_dense_operational",
                   "C02_opSave_refines", "C02_opSave_fails_iff", "C02_opSave_error", "C02_opSave_total",
                   "C02_opSave_tables", "C02_opSave_roundtrip", "C02_opSave_roundtrip_none", "C02_opSave_closed",
-                  "C02_opSave_unique", "C02_opSave_parent_first", "C02_opSave_exact", "C02_opSave_tag_ids_dense"]
+                  "C02_opSave_unique", "C02_opSave_parent_first", "C02_opSave_exact", "C02_opSave_tag_ids_dense",
+                  # second-engineer review: the reference table of the schema
+                  "C02_refs_are_the_rows", "C02_closed_iff_rows", "C02_rows_defined", "C02_schema_closed",
+                  "C02_save_within", "C02_model_schemas_closed", "C02_save_refs_declared", "C02_exact_objects",
+                  "C02_tag_contents_nodup", "C02_opSave_rows_defined", "C02_opSave_exact_objects",
+                  "C02_opSave_tag_contents_nodup"]
 THEOREMS = [_T + n for n in _THEOREM_NAMES]
 LEVEL_TEXT = ("Lean theorems over the AOEF model (shared with C01): the document `save c` writes is closed under "
               "reference, its identifiers are unique per list, a sequence's parent precedes it, tag ids are dense and "
-              "allocated per (label, value), and the objects defined are exactly the objects reachable from the "
-              "collection (traversal = reflexive-transitive closure of the direct-reference relation `children`). The "
-              "executable statement of the property (Lean `closed` / `unique` / `parentFirst` and `defs = reachKeys`) is "
-              "evaluated on the document the real code writes for pool-generated object graphs biased to objects "
-              "reachable through exactly one path.")
-LEVEL_NOTE = ("Trusted: Lean kernel; the harness' conversion of the written JSON into the model's Doc layout. The model "
-              "is tied to the code by the C01 FieldsAgree obligations and by comparing, per kind, the identifiers the "
-              "real document defines with the identifiers the model's traversal reaches; strength bounded by the "
-              "generators (distribution in the evidence).")
-TECHNIQUE = ("Lean 4 proof (closure / uniqueness / parent-first / exactness theorems over the AOEF model); the same "
-             "predicates evaluated in Lean on the real documents; differential correspondence of defined vs reachable "
-             "identifiers per kind")
-RULE = ("distinct (collection, audio_dir) inputs for which the real code wrote a document; non-trivial = the document "
-        "defines at least one object besides the collection itself")
-TRUSTED = ["harness/aoef.py: doc_to_model (written JSON -> Lean Doc layout), build (model JSON -> pydantic objects)"]
-ASSUMPTIONS = ["objects with one uuid are one object (the model's WF hypothesis, evaluated by wfB on every input)",
+              "allocated per (label, value) and a tag content is defined once, and the objects defined are exactly the "
+              "objects reachable from the collection, kind by kind (traversal = reflexive-transitive closure of the "
+              "direct-reference relation `children`). `closed` quantifies over a reference table with one row per "
+              "reference-carrying field of the schema (`refs` = union of the rows, proved); the rows, the definition "
+              "lists and the keys of the eight collection schemas are re-extracted from the type annotations of the "
+              "declared fields on every run and discharged against the table (`decide +kernel`), together with the "
+              "generic schema theorem (a schema that can hold a reference field declares the list it points into). "
+              "The executable statement of the property (Lean `closed` / `unique` / `parentFirst`, `defs = reachKeys`, "
+              "tag contents once) is evaluated on the documents the real code writes — pool-generated graphs, trees "
+              "in which every reference is the only path to its target, exhaustive present/absent child lists, parent "
+              "chains of depth 0..5 with shared parents in both conversion orders, identifiers shared across kinds, "
+              "collections that are instances of user-defined subclasses or come from model_validate / model_copy / "
+              "tuples, histories of saves in one process to one file path (other types over the same Python objects, "
+              "re-identified objects, an object modified in place, a poisoned return value and an `exclude` call in "
+              "between) — and every written document is loaded back through the library's single-pass loader, which "
+              "must reach the same identifiers.")
+LEVEL_NOTE = ("Trusted: Lean kernel; the harness' conversion of the written JSON into the model's Doc layout "
+              "(cross-checked on every document by a schema-driven scan of the raw JSON that knows no field name: "
+              "identifiers per definition list and per reference row must agree with the Lean accessors). The model "
+              "is tied to the code by the regenerated reference-table / schema obligations and by comparing, per kind, "
+              "the identifiers the real document defines with the identifiers the model's traversal reaches; strength "
+              "bounded by the generators (distribution in the evidence). Unmodelled: pydantic's dumping of atoms, "
+              "objects built without validation, two Python objects with one uuid and different content (only "
+              "closure / parent order are monitored there).")
+TECHNIQUE = ("Lean 4 proof (closure / uniqueness / parent-first / exactness / reference-table theorems over the AOEF "
+             "model); regenerated reference-table and schema obligations (decide +kernel) from the declared fields; the "
+             "same predicates evaluated in Lean on the real documents; differential correspondence of defined vs "
+             "reachable identifiers per kind; schema-driven scan of the raw documents; load-back through the real loader")
+RULE = ("distinct (collection, audio_dir, construction path) inputs for which the real code wrote a document; "
+        "non-trivial = the document defines at least one object besides the collection itself; a history (several saves "
+        "in one process, every step judged by the model on the content the objects carry at that step) counts once")
+TRUSTED = ["harness/aoef.py: doc_to_model (written JSON -> Lean Doc layout; cross-checked per document by "
+           "harness/aoef_schema.py), build (model JSON -> pydantic objects)"]
+ASSUMPTIONS = ["objects with one uuid are one object (the model's WF hypothesis, evaluated by wfB on every input; inputs "
+               "that break it are only monitored for closure and parent order)",
                "the collection's own member list has distinct members (otherwise 'defined exactly once' and 'list order "
                "is preserved' cannot both hold for recording sets, annotation sets and prediction sets)"]
 NOT_COMPARED = ["order of the definition lists (only parent-before-child is pinned)", "numbering of tag ids (only "
-                "uniqueness and resolution are pinned; density is proved of the model and reported if it differs)"]
+                "uniqueness, one id per content and resolution are pinned; density is proved of the model; adapter "
+                "operation sequences are compared modulo a renumbering of the tag ids)"]
 
 _CTX = [None]
+_SCHEMA = [None]        # aoef_schema.extract() of this run (None: could not be extracted)
+_TARGETS = [None]       # "owner/path" -> definition list, from the model's reference table
+_TIE_REPORTED = [0, 0]
+
+
+def _ctx():
+    """the running check's context; in --replay mode `run` is not called, so it is looked up on the call stack"""
+    if _CTX[0] is None:
+        import sys
+        from ..core import Ctx
+        f = sys._getframe(1)
+        while f is not None:
+            c = f.f_locals.get("self")
+            if isinstance(c, Ctx):
+                _CTX[0] = c
+                break
+            f = f.f_back
+    return _CTX[0]
+
+
+def _ref_table(ctx):
+    if _TARGETS[0] is None:
+        tab = ctx.model("ref_table", {})
+        _TARGETS[0] = (tab, {f"{r['owner']}/{r['path']}": r["kind"] for r in tab["rows"]})
+    return _TARGETS[0][0]
+
+
+def _targets(ctx):
+    _ref_table(ctx)
+    return _TARGETS[0][1]
+
+
+def _schema():
+    if _SCHEMA[0] is None:
+        try:
+            _SCHEMA[0] = aoef_schema.extract()
+        except Exception:  # noqa: BLE001  (the package changed shape: the scan is simply not available)
+            _SCHEMA[0] = {}
+    return _SCHEMA[0]
+
+
+# ------------------------------------------------------------------ the written document
+_PRE = {}          # id(input) -> (input, output) prepared in a batch (see _prepare)
+
+
+def _negative_int(x):
+    if isinstance(x, bool):
+        return False
+    if isinstance(x, int):
+        return x < 0
+    if isinstance(x, dict):
+        return any(_negative_int(v) for v in x.values())
+    if isinstance(x, list):
+        return any(_negative_int(v) for v in x)
+    return False
+
+
+def _save(inp, session=None):
+    """build the real objects and `io.save` them.  `inp["how"]`: the construction path of the collection (see
+    c02gen.construct).  Within a history (`session`) the Python objects of earlier steps are *shared* with this
+    step when `inp["share"]` says their content is the same, and every step writes to the same file path (the file
+    of the earlier save is still there)."""
+    import os
+    from soundevent import io
+    b = session["builder"] if (session is not None and inp.get("share")) else aoef.Builder()
+    if inp.get("mutate") and session is not None:
+        # an object that was saved before is modified in place (list append / attribute assignment) and saved again
+        c02gen.apply_mutation(b, inp["mutate"])
+    obj = c02gen.construct(b.collection(inp["collection"]), inp.get("how"))
+    if session is not None:
+        path = session.setdefault("path", aoef_impl.tmp_path("hist"))
+    else:
+        path = aoef_impl.tmp_path()
+        if os.path.exists(path):
+            os.remove(path)
+    adir = aoef_impl.adir(inp.get("audio_dir"), inp.get("dir_as", "str"))
+    io.save(obj, path, audio_dir=adir)
+    if inp.get("poison"):
+        _poison(obj, adir, path)
+    return path
+
+
+def _poison(obj, adir, path):
+    """after the save that is judged: convert the same object again, empty every list of the returned AOEF object in
+    place, and save once more with an `exclude` option to another file.  Nothing of this may show in later saves
+    (a returned object that aliases adapter state, an option that leaks into module state)."""
+    import os
+    from soundevent import io
+    from soundevent.io import aoef as A
+    try:
+        res = A.to_aeof(obj, audio_dir=adir)
+        for name in type(res.data).model_fields:
+            v = getattr(res.data, name, None)
+            if isinstance(v, list):
+                for o in v:
+                    for n2 in type(o).model_fields if hasattr(type(o), "model_fields") else ():
+                        w = getattr(o, n2, None)
+                        if isinstance(w, list):
+                            w.clear()
+                v.clear()
+        other = path + ".excluded.json"
+        io.save(obj, other, audio_dir=adir, exclude={"data": {"tags": True, "users": True}})
+        os.remove(other)
+    except Exception:  # noqa: BLE001  (the extra calls are not what is judged)
+        pass
+
+
+def _observe(inp, load=True, session=None):
+    """run the real code on one input: save, read the file back as JSON, convert it to the model's layout, and load it
+    through the library's own single-pass loader.  No model call here (they are batched)."""
+    rec = {"inp": inp}
+    try:
+        path = _save(inp, session)
+    except Exception as e:  # noqa: BLE001
+        rec["out"] = canon_exc(e)
+        if rec["out"]["raise"].startswith("crash:"):
+            rec["out"]["trace"] = repr(e)[:300]
+        return rec
+    try:
+        rec["data"] = json.load(open(path))["data"]
+        if load:
+            rec["loaded"] = _load_dump(path, inp)
+    finally:
+        if session is None:
+            aoef_impl.cleanup(path)
+    try:
+        doc = aoef.doc_to_model(rec["data"])
+        if _negative_int(doc):
+            raise ValueError("negative integer identifier")
+        rec["doc"] = doc
+    except Exception as e:  # noqa: BLE001  (the document no longer has the shape the conversion expects)
+        rec["unconvertible"] = repr(e)[:300]
+    return rec
+
+
+def _load_dump(path, inp):
+    from soundevent import io
+    try:
+        return {"val": aoef.dump(io.load(path, audio_dir=inp.get("audio_dir")))}
+    except Exception as e:  # noqa: BLE001
+        return canon_exc(e)
+
+
+def _judge(ctx, rec, rep, loaded):
+    """everything the check observes of one written file (`rep`: the model's analysis of the converted document,
+    `loaded`: the identifiers reached by the collection the loader returned)"""
+    if "out" in rec:
+        return rec["out"]
+    data, inp = rec["data"], rec["inp"]
+    out = {"problems": [], "defs": {}, "dup": {}, "unknown_keys": sorted(set(data) - aoef.KNOWN_DOC_KEYS)}
+    if "unconvertible" in rec:
+        out["unconvertible"] = rec["unconvertible"]
+    if rep is not None:
+        out["problems"] = list(rep["problems"])
+        out["defs"] = {k: sorted(set(v)) for k, v in rep["defs"].items()}
+        out["dup"] = {k: len(v) - len(set(v)) for k, v in rep["defs"].items() if len(v) != len(set(v))}
+        try:
+            tids = sorted(int(i) for i in rep["ids"].get("tags", []))
+            ctx.tally("documents with tags", int(bool(tids)))
+            ctx.tally("documents whose tag ids are 0..n-1", int(bool(tids) and tids == list(range(len(tids)))))
+        except Exception:  # noqa: BLE001
+            pass
+        contents = [tuple(t) for t in rep.get("tag_contents", [])]
+        twice = sorted({c for c in contents if contents.count(c) > 1})
+        if twice:
+            out["problems"].append(f"the tag {twice[0]!r} is defined {contents.count(twice[0])} times (one entry per content)")
+    # the schema-driven scan of the raw JSON (knows no field name)
+    info = _schema().get(data.get("collection_type"))
+    if info is not None:
+        sc = aoef_schema.scan(info, data)
+        if sc["undeclared"]:
+            out["unknown_keys"] = sorted(set(out["unknown_keys"]) | set(sc["undeclared"]))
+        scan_problems = aoef_schema.dangling(info, sc, _targets(ctx))
+        if scan_problems and not out["problems"]:
+            out["problems"] = ["schema scan: " + p for p in scan_problems[:3]]
+        if rep is not None:
+            tie = _scan_vs_model(sc, rep)
+            if tie:
+                out["tie"] = tie
+        if inp.get("label") == "tree":
+            _tally_only_through(ctx, sc)
+    if loaded is not None:
+        out["loaded"] = loaded
+    return out
+
+
+def _model_many_safe(ctx, op, args_list):
+    """`model_many`, but a request the driver rejects (the written document no longer parses into the model's
+    layout) yields None for that request instead of ending the check: the driver is restarted (replies of a
+    half-read batch must not be mistaken for later ones) and the requests are retried one by one."""
+    from ..leanio import Driver, InfraError
+    try:
+        return ctx.model_many(op, args_list)
+    except InfraError as e:
+        if "protocol error" not in str(e):
+            raise
+    out = []
+    for a in args_list:
+        try:
+            ctx.driver.close()
+        except Exception:  # noqa: BLE001
+            pass
+        ctx.driver = Driver()
+        try:
+            out.append(ctx.model(op, a))
+        except InfraError as e:
+            if "protocol error" not in str(e):
+                raise
+            out.append(None)
+    try:
+        ctx.driver.close()
+    except Exception:  # noqa: BLE001
+        pass
+    ctx.driver = Driver()
+    return out
+
+
+def _prepare(ctx, cases, load=True, sessions=None):
+    """observe every case (in order: the saves of a history happen one after the other), then ask the model about all
+    documents in two batched requests; `_impl_closure` picks the prepared outputs up"""
+    recs = [_observe(inp, load, None if sessions is None else sessions[i]) for i, inp in enumerate(cases)]
+    for ses in {id(x): x for x in (sessions or []) if x}.values():
+        if ses.get("path"):
+            aoef_impl.cleanup(ses["path"])
+    with_doc = [r for r in recs if "doc" in r]
+    reps = dict(zip(map(id, with_doc), _model_many_safe(ctx, "closure", [{"doc": r["doc"]} for r in with_doc])))
+    for r in with_doc:
+        if reps[id(r)] is None:
+            r["unconvertible"] = "the model's Doc layout rejects the converted document"
+    with_val = [r for r in recs if "val" in r.get("loaded", {})]
+    reach = dict(zip(map(id, with_val),
+                     _model_many_safe(ctx, "reach", [{"collection": r["loaded"]["val"]} for r in with_val])))
+    for r in with_val:
+        if reach[id(r)] is None:       # what the loader returned does not dump to the model's layout
+            reach[id(r)] = {"raise": "undumpable"}
+    outs = []
+    for r in recs:
+        ld = r.get("loaded")
+        loaded = None if ld is None else (reach[id(r)] if "val" in ld else ld)
+        out = _judge(ctx, r, reps.get(id(r)), loaded)
+        _PRE[id(r["inp"])] = (r["inp"], out)
+        outs.append(out)
+    return outs
+
+
+def _scan_vs_model(sc, rep):
+    """the Lean accessors (on the converted document) and the scan of the raw JSON must see the same identifiers"""
+    for name in sorted(set(sc["rows"]) | set(rep["rows"])):
+        a, b = sorted(sc["rows"].get(name, [])), sorted(rep["rows"].get(name, []))
+        if a != b:
+            return f"reference row {name}: the raw document holds {a[:3]} ({len(a)}), the model's accessor finds {b[:3]} ({len(b)})"
+    for name in sorted(set(sc["defs"]) | set(rep["ids"])):
+        a, b = sorted(sc["defs"].get(name, [])), sorted(rep["ids"].get(name, []))
+        if a != b:
+            return f"definition list {name}: the raw document defines {a[:3]} ({len(a)}), the model's `defs` finds {b[:3]} ({len(b)})"
+    return None
+
+
+def _tally_only_through(ctx, sc):
+    """which reference rows were, in a tree-shaped document, the only mention of an identifier"""
+    count = {}
+    for name, vals in sc["rows"].items():
+        for v in vals:
+            count[v] = count.get(v, 0) + 1
+    for name, vals in sc["rows"].items():
+        if any(count[v] == 1 for v in vals):
+            ctx.tally("only-path:" + name)
+
+
+def _prepared(inp, load=True):
+    hit = _PRE.pop(id(inp), None)
+    if hit is not None and hit[0] is inp:
+        return hit[1]
+    return _prepare(_ctx(), [inp], load)[0]
 
 
 def _impl_closure(inp):
     """the reference structure of the document the real code writes, analysed by the Lean-side predicates"""
-    try:
-        _obj, path = aoef_impl.save_real(inp["collection"], inp.get("audio_dir"))
-    except Exception as e:  # noqa: BLE001
-        return canon_exc(e)
-    try:
-        doc, unknown = aoef_impl.read_doc(path)
-    finally:
-        aoef_impl.cleanup(path)
-    rep = _CTX[0].model("closure", {"doc": doc})
-    return {"problems": rep["problems"], "defs": {k: sorted(set(v)) for k, v in rep["defs"].items()},
-            "dup": {k: len(v) - len(set(v)) for k, v in rep["defs"].items() if len(v) != len(set(v))},
-            "unknown_keys": unknown}
+    return _prepared(inp)
 
 
 def _holds_closure(ctx, inp, out):
@@ -63,27 +352,78 @@ def _holds_closure(ctx, inp, out):
         return f"save raised {out['raise']} on a collection inside the quantifier"
     if out["problems"]:
         return "the written document is not self-contained: " + "; ".join(out["problems"][:3])
+    if out.get("tie") and _TIE_REPORTED[0] < 3:
+        # not a verdict about the property: the conversion / the model's accessors no longer describe the document
+        _TIE_REPORTED[0] += 1
+        ctx.fail("correspondence", "doc_scan", inp=inp, impl=out.get("tie"), detail=out["tie"])
+    if out.get("unknown_keys") and _TIE_REPORTED[0] < 3:
+        _TIE_REPORTED[0] += 1
+        ctx.fail("correspondence", "doc_keys", inp=inp, detail=f"the document has keys the model does not know: {out['unknown_keys']}")
+    if (out.get("loaded") or {}).get("raise") == "undumpable" and _TIE_REPORTED[0] < 3:
+        _TIE_REPORTED[0] += 1
+        ctx.fail("correspondence", "loaded_dump", inp=inp, detail="the collection the loader returned does not dump to the model's layout")
+    if out.get("unconvertible") and _TIE_REPORTED[0] < 3:
+        _TIE_REPORTED[0] += 1
+        ctx.fail("correspondence", "doc_to_model", inp=inp, detail="the written document no longer converts to the "
+                 "model's layout: " + out["unconvertible"])
     return None
 
 
 def _cmp_closure(inp, io, mo):
-    """defined identifiers == reachable identifiers, per kind (nothing missing, nothing unreachable written)"""
+    """defined identifiers == reachable identifiers, per kind (nothing missing, nothing unreachable written);
+    the loader reaches the same identifiers in its single pass"""
     if "raise" in io:
         return None
-    for k, reach in mo.items():
-        got = set(io["defs"].get(k, []))
-        want = set(reach)
-        if got != want:
-            missing = sorted(want - got)[:2]
-            extra = sorted(got - want)[:2]
-            return (f"{k}: defined identifiers differ from the reachable objects "
-                    f"(reachable but not defined: {missing}; defined but not reachable: {extra})")
-    if io.get("unknown_keys"):
-        return f"the document has keys the model does not know: {io['unknown_keys']}"
+    if "unconvertible" not in io:
+        for k, reach in mo.items():
+            got = set(io["defs"].get(k, []))
+            want = set(reach)
+            if got != want:
+                missing = sorted(want - got)[:2]
+                extra = sorted(got - want)[:2]
+                return (f"{k}: defined identifiers differ from the reachable objects "
+                        f"(reachable but not defined: {missing}; defined but not reachable: {extra})")
+    ld = io.get("loaded")
+    if ld is not None and ld.get("raise") != "undumpable":
+        if "raise" in ld:
+            return f"the library's loader cannot resolve the document it wrote (load raised {ld['raise']})"
+        for k, reach in mo.items():
+            if set(ld.get(k, [])) != set(reach):
+                lost = sorted(set(reach) - set(ld.get(k, [])))[:2]
+                new = sorted(set(ld.get(k, [])) - set(reach))[:2]
+                return (f"{k}: the single-pass loader does not resolve every reference of the written document "
+                        f"(reachable before, not after loading: {lost}; new: {new})")
     return None
 
 
+# ------------------------------------------------------------------ inputs outside the coherence hypothesis
+def _holds_nonwf(ctx, inp, out):
+    """two objects with one uuid and different content: the model's theorems do not cover the code's choice of which
+    one is written, but the document must still be closed, and a sequence's parent must still precede it"""
+    if "raise" in out:
+        return None
+    bad = [p for p in out["problems"] if not p.startswith("duplicate identifiers")]
+    if bad:
+        return "the written document is not self-contained: " + "; ".join(bad[:3])
+    return None
+
+
+def _impl_nonwf(inp):
+    return _prepared(inp, load=False)
+
+
 # ------------------------------------------------------------------ the adapter protocol, operation sequences
+def _ops_of(inp):
+    """the operation sequence as far as the adapter offers the operations: `get_id` is not something a save needs
+    from outside, so when the method is gone (renamed, made private) those steps are left out on both sides"""
+    try:
+        from soundevent.io.aoef.adapters import DataAdapter
+        have = hasattr(DataAdapter, "get_id")
+    except Exception:  # noqa: BLE001
+        have = True
+    return inp["ops"] if have else [op for op in inp["ops"] if op[0] != "get_id"]
+
+
 def _impl_adapter_ops(inp):
     """drive a fresh real UserAdapter / TagAdapter through the operation sequence"""
     import uuid as _uuid
@@ -114,7 +454,7 @@ def _impl_adapter_ops(inp):
                     "institution": o.institution}
         return {"id": o.id, "key": o.key, "value": o.value}
     out = []
-    for op in inp["ops"]:
+    for op in _ops_of(inp):
         if op[0] == "to_aoef":
             out.append(d_ao(ad.to_aoef(se(op[1]))))
         elif op[0] == "to_se":
@@ -130,8 +470,73 @@ def _impl_adapter_ops(inp):
     return out
 
 
+def _renumber(ops, outs):
+    """the outputs of a save-mode tag sequence with the ids renamed in order of first appearance (the property does
+    not pin the numbering)"""
+    ren = {}
+
+    def r(i):
+        return ren.setdefault(i, len(ren))
+    res = []
+    for op, o in zip(ops, outs):
+        if op[0] == "to_aoef" and isinstance(o, dict):
+            res.append(dict(o, id=r(o["id"])))
+        elif op[0] == "get_id" and isinstance(o, int):
+            res.append(r(o))
+        elif op[0] == "values" and isinstance(o, list):
+            res.append(sorted((dict(x, id=r(x["id"])) for x in o), key=lambda x: x["id"]))
+        else:
+            res.append(o)
+    return res
+
+
+def _cmp_adapter_ops(inp, io, mo):
+    if not isinstance(io, list) or not isinstance(mo, list):
+        return None          # the adapter could not be driven: reported by `_holds_adapter_ops` as a broken tie
+    ops = _ops_of(inp)
+    if inp["kind"] == "tag" and inp.get("mode") == "save":
+        io, mo = _renumber(ops, io), _renumber(ops, mo)
+    return None if io == mo else "implementation and model disagree"
+
+
+def _holds_adapter_ops(ctx, inp, out):
+    """what the property needs of an adapter in a save: after any sequence of conversions `values()` defines every
+    identifier that `to_aoef` handed out, once, and one identifier per object (tags: per content)"""
+    if isinstance(out, dict) and "raise" in out:
+        if _TIE_REPORTED[1] < 2:
+            _TIE_REPORTED[1] += 1
+            ctx.fail("correspondence", "adapter_protocol", inp=inp, impl=out,
+                     detail=f"the adapter classes can no longer be driven through the operation sequence ({out['raise']})")
+        return None
+    if inp.get("mode") != "save" or not isinstance(out, list) or not out:
+        return None
+    final = out[-1] or []
+    key = "uuid" if inp["kind"] == "user" else "id"
+    ids = [o[key] for o in final]
+    if len(ids) != len(set(ids)):
+        return "values() lists an identifier twice"
+    given = {}
+    for op, o in zip(_ops_of(inp), out):
+        if op[0] == "to_aoef" and isinstance(o, dict):
+            content = op[1]["uuid"] if inp["kind"] == "user" else (op[1]["key"], op[1]["value"])
+            if o[key] not in ids:
+                return f"to_aoef handed out the identifier {o[key]!r}, which values() does not define"
+            if given.setdefault(content, o[key]) != o[key]:
+                return f"one object got two identifiers ({given[content]!r}, {o[key]!r})"
+    if len(set(given.values())) != len(given):
+        return "two different objects share one identifier"
+    if len(final) != len(given):
+        return f"values() defines {len(final)} objects after {len(given)} distinct objects were converted"
+    return None
+
+
 def _gen_adapter_ops(rng, n):
-    cases = []
+    """(enforced cases, informational cases).  Enforced: users in every mode (their identifiers are their uuids);
+    tags in save mode (to_aoef / values / get_id of an already converted tag; compared modulo renumbering) and in
+    load mode (to_soundevent / from_id / values: no id is allocated).  Informational: tag sequences that mix saving
+    and loading or ask get_id for a tag that was never converted — no save does that, and the outcome depends on how
+    ids are numbered, which the property leaves open."""
+    cases, info = [], []
     for _ in range(n):
         kind = rng.choice(["user", "tag"])
         g = aoefgen.Gen(rng, size=0.5)
@@ -148,22 +553,52 @@ def _gen_adapter_ops(rng, n):
             mk_ao = lambda t: {"id": rng.choice(ids), "key": t["key"], "value": t["value"]}
         ops = []
         mode = rng.choice(["save", "save", "load", "mixed"])
+        strict = True
+        converted = []
         for _ in range(rng.randint(1, 14)):
             r = rng.random()
             if r < 0.15:
                 ops.append(["values"])
-            elif r < 0.3:
+            elif r < 0.3 and not (kind == "tag" and mode == "save"):
                 ops.append(["from_id", rng.choice(ids)])
             elif mode == "save" or (mode == "mixed" and r < 0.65):
-                ops.append([rng.choice(["to_aoef", "to_aoef", "get_id"]), copy.deepcopy(rng.choice(pool))])
+                what = rng.choice(["to_aoef", "to_aoef", "get_id"])
+                x = copy.deepcopy(rng.choice(pool))
+                if kind == "tag" and what == "get_id" and x not in converted:
+                    if mode == "save" and rng.random() < 0.8:
+                        what = "to_aoef"
+                    else:
+                        strict = False
+                if what == "to_aoef":
+                    converted.append(x)
+                ops.append([what, x])
             else:
                 ops.append(["to_se", mk_ao(rng.choice(pool))])
         ops.append(["values"])
-        cases.append({"kind": kind, "ops": ops})
-    return cases
+        if kind == "tag" and mode == "mixed":
+            strict = False
+        if kind == "tag" and mode == "save" and not strict:
+            mode = "mixed"
+        (cases if strict else info).append({"kind": kind, "mode": mode, "ops": ops})
+    return cases, info
+
+
+# ------------------------------------------------------------------ histories
+def _prepare_histories(ctx, hs):
+    """the steps of each history in one session: one builder (Python objects shared between the steps that say so) and
+    one file path"""
+    steps, sessions = [], []
+    for h in hs:
+        ses = {"builder": aoef.Builder()}
+        for st in h["steps"]:
+            steps.append(st)
+            sessions.append(ses)
+    _prepare(ctx, steps, True, sessions)
 
 
 def _impl_closure_history(inp):
+    if not all(id(st) in _PRE for st in inp["steps"]):
+        _prepare_histories(_ctx(), [inp])
     return [_impl_closure(st) for st in inp["steps"]]
 
 
@@ -184,13 +619,36 @@ def _cmp_closure_history(inp, io, mo):
 
 
 def _history_cases(rng, n):
-    """several collections over the *same* pools of objects, saved one after the other in one process"""
+    """several collections over the *same* pools of objects, saved one after the other in one process **to one file
+    path**: other types over the same objects, the same type twice with other members, the first collection again
+    (alternating with another one), and the first collection with some kinds of objects re-identified (what the
+    annotations, notes, clips refer to differs between two saves).  Steps whose objects have the content seen before
+    *share the Python objects* of the earlier steps (`share`); a step can be an instance of a user-defined subclass or
+    come from `model_copy` / `model_validate` (`how`)."""
     out = []
     for _ in range(n):
         g = aoefgen.Gen(rng, base="/data/audio")
         tys = rng.sample(aoefgen.TYPES, 3) + [rng.choice(aoefgen.TYPES)]
-        steps = [{"collection": g.collection(ty), "audio_dir": rng.choice([None, "/data/audio"])} for ty in tys]
-        steps.append(copy.deepcopy(steps[0]))
+        d = lambda: rng.choice([None, "/data/audio"])
+        steps = [{"collection": g.collection(ty), "audio_dir": d()} for ty in tys]
+        first = steps[0]
+        steps.append({"collection": g.collection(tys[0]), "audio_dir": first["audio_dir"]})    # same type, other members
+        steps.append(copy.deepcopy(first))                                                      # the very same again
+        kinds = rng.sample(["user", "tag", "recording", "clip", "sound_event", "sequence"], rng.randint(1, 3))
+        steps.append({"collection": c02gen.reidentify(first["collection"], kinds), "audio_dir": first["audio_dir"]})
+        steps.append(copy.deepcopy(steps[1]))
+        steps.append(copy.deepcopy(first))
+        seen = {}
+        for st in steps:
+            st["share"] = c02gen.coherent_with(seen, st["collection"])
+            st["how"] = rng.choice(["plain", "plain", "plain", "copy_shallow", "copy_deep", "subclass", "validate"])
+            st["poison"] = rng.random() < 0.3
+            st["dir_as"] = rng.choice(["str", "path"])
+        # last: an object every earlier step shared is modified in place, and the first collection saved again
+        mut = c02gen.pick_mutation(rng, first["collection"])
+        if mut is not None:
+            steps.append({"collection": c02gen.mutate_json(first["collection"], mut), "audio_dir": first["audio_dir"],
+                          "share": True, "how": "plain", "mutate": mut})
         out.append({"steps": steps})
     return out
 
@@ -200,11 +658,70 @@ OPS = {
                           to_model=lambda i: {"steps": [{"collection": s["collection"]} for s in i["steps"]]},
                           holds=_holds_closure_history, compare=_cmp_closure_history,
                           nontrivial=lambda i, o: all("defs" in x for x in o)),
-    "adapter_ops": Op("adapter_ops", _impl_adapter_ops, nontrivial=lambda i, o: isinstance(o, list) and len(o) > 2),
+    "adapter_ops": Op("adapter_ops", _impl_adapter_ops, holds=_holds_adapter_ops, compare=_cmp_adapter_ops,
+                      to_model=lambda i: {"kind": i["kind"], "ops": _ops_of(i)},
+                      nontrivial=lambda i, o: isinstance(o, list) and len(o) > 2),
     "closure": Op("closure", _impl_closure, to_model=lambda i: {"collection": i["collection"]}, model_op="reach",
                   holds=_holds_closure, compare=_cmp_closure,
                   nontrivial=lambda i, o: "defs" in o and any(o["defs"].values())),
+    "closure_nonwf": Op("closure_nonwf", _impl_nonwf, to_model=lambda i: {"collection": i["collection"]},
+                        model_op="reach", holds=_holds_nonwf, compare=lambda i, a, b: None,
+                        nontrivial=lambda i, o: "defs" in o and any(o["defs"].values())),
 }
+
+
+# ------------------------------------------------------------------ tie 1: the reference table and the schemas
+def _lean_list(xs):
+    return "[" + ", ".join(json.dumps(x, ensure_ascii=False) for x in xs) + "]"
+
+
+def _in_order(xs, order):
+    """`xs` permuted into the order of `order` (what `order` does not know comes last, sorted): the obligation
+    compares lists, the permutation only spares Lean a sort"""
+    pos = {x: i for i, x in enumerate(order)}
+    return sorted(xs, key=lambda x: (pos.get(x, len(pos)), x))
+
+
+def _tables(ctx):
+    try:
+        info = aoef_schema.extract()
+    except Exception as e:  # noqa: BLE001
+        ctx.fail("obligation", "schema_extraction", detail=f"the collection schemas could not be read off the package: {e!r}")
+        ctx.pre_failed.append("schema_extraction")
+        return
+    _SCHEMA[0] = info
+    tab = _ref_table(ctx)
+    rows = set()
+    idty = {}
+    for i in info.values():
+        rows |= i["rows"]
+        for name, (t, _c) in i["deflists"].items():
+            idty.setdefault(name, set()).add(t)
+    names = _in_order([f"{o}/{p}/{t}" for o, p, t in rows], [f"{r['owner']}/{r['path']}/{r['idty']}" for r in tab["rows"]])
+    ctx.obligation("reference_rows",
+                   f"example : SE.Aoef.refRows.map (·.name) = {_lean_list(names)} := by decide +kernel\n"
+                   "example : SE.Aoef.rowsWellTyped = true := by decide\n",
+                   {"rows": names})
+    kind_order = [k["name"] for k in tab["kinds"]]
+    kinds = [f"{n}/{'|'.join(sorted(idty[n]))}" for n in _in_order(list(idty), kind_order)]
+    ctx.obligation("definition_lists",
+                   "example : (SE.Aoef.Kind.all.map fun k => k.name ++ \"/\" ++ k.idty) = "
+                   f"{_lean_list(kinds)} := by decide +kernel\n", {"lists": kinds})
+    types = sorted(info)
+    ctx.obligation("collection_types",
+                   f"example : ({_lean_list(types)}.all fun t => (SE.Aoef.Doc.keys t).length > 0) = true := by decide +kernel\n"
+                   f"example : {_lean_list(types)}.length = 8 := by decide\n", {"types": types})
+    for ty, i in info.items():
+        keys = _in_order(i["keys"], tab["keys"].get(ty, []))
+        k = _lean_list(keys)
+        src = (f"example : SE.Aoef.Doc.keys {json.dumps(ty)} = {k} := by decide +kernel\n"
+               f"example : SE.Aoef.defListsOf {k} = {_lean_list(_in_order(list(i['deflists']), kind_order))} := by decide +kernel\n"
+               f"example : ∀ d : SE.Aoef.Doc, d.within {k} → ∀ r ∈ SE.Aoef.refRows, r.get d ≠ [] →\n"
+               f"    r.owner ∈ {k} ∧ r.kind.name ∈ {k} :=\n"
+               f"  fun d hd => SE.Proofs.C02.C02_schema_closed _ (by decide +kernel) d hd\n")
+        ctx.obligation(f"schema_{ty}", src, {"keys": i["keys"], "definition_lists": sorted(i["deflists"]),
+                                             "rows": sorted(f"{o}/{p}" for o, p, _t in i["rows"])})
+    ctx.tally("reference rows extracted", len(rows))
 
 
 # ------------------------------------------------------------------ generators
@@ -258,15 +775,20 @@ def _only_through(rng):
     return out
 
 
-def _wf_filter(ctx, cases):
+def _wf_split(ctx, cases):
+    """(inside the coherence hypothesis, outside)"""
     oks = ctx.driver.call_many("C01", "wf", [{"collection": c["collection"]} for c in cases])
-    out = []
+    inside, outside = [], []
     for c, ok in zip(cases, oks):
-        if ok:
-            out.append(c)
-        else:
-            ctx.tally("generator:not-WF")
-    return out
+        (inside if ok else outside).append(c)
+    return inside, outside
+
+
+def _wf_filter(ctx, cases):
+    inside, outside = _wf_split(ctx, cases)
+    if outside:
+        ctx.tally("generator:not-WF", len(outside))
+    return inside
 
 
 def _gen_cases(ctx, rng, n_per_type, size=1.0):
@@ -275,9 +797,105 @@ def _gen_cases(ctx, rng, n_per_type, size=1.0):
         for _ in range(n_per_type):
             base = rng.choice(["/data/audio", "/", None])
             cj = aoefgen.gen_collection(rng, ty, rich=rng.random() < 0.2, base=base, size=size)
-            cases.append({"collection": cj, "audio_dir": base if (base and rng.random() < 0.5) else None})
+            how = rng.choice(c02gen.HOWS) if rng.random() < 0.5 else "plain"
+            cases.append({"collection": cj, "audio_dir": base if (base and rng.random() < 0.5) else None, "how": how,
+                          "dir_as": rng.choice(["str", "path"])})
             ctx.tally("type:" + ty)
+            ctx.tally("constructed:" + how)
     return _wf_filter(ctx, cases)
+
+
+def _directed(ctx, rng):
+    """the deterministic directed inputs: trees, present/absent child lists, parent chains"""
+    tree = _wf_filter(ctx, c02gen.tree_cases(rng))
+    ctx.tally("tree-shaped collections (every reference the only path)", len(tree))
+    pres = _wf_filter(ctx, c02gen.presence_cases(rng))
+    ctx.tally("present/absent child lists (exhaustive)", len(pres))
+    seqs = _wf_filter(ctx, c02gen.sequence_cases(rng))
+    ctx.tally("parent chains (depth 0..5, shared parents, both orders)", len(seqs))
+    other = [dict(c, how=rng.choice(c02gen.HOWS)) for c in pres + seqs]
+    return tree + other + [c02gen.large_case(rng)]
+
+
+def _enough(ctx):
+    """concrete violations are already in hand: the verdict is settled, do not spend minutes collecting more (a
+    change that makes every document grow — state shared between saves — would otherwise take very long)"""
+    if sum(1 for f in ctx.failures if f.kind == "property") >= 10:
+        if not any(n.startswith("stopped early") for n in ctx.notes):
+            ctx.note("stopped early: ten concrete violations found, the remaining generated cases were not run")
+        return True
+    return False
+
+
+def _in_fresh_process(steps):
+    """the written documents of a sequence of saves in a fresh interpreter (None: the worker could not be run)"""
+    import os
+    import subprocess
+    import sys
+    from .. import leanio
+    env = dict(os.environ)
+    env["SOUNDEVENT_SRC"] = os.environ.get("SOUNDEVENT_SRC", "/repo/src")
+    try:
+        p = subprocess.run([sys.executable, "-m", "harness.c02_worker"], cwd=leanio.VERIF, env=env, text=True,
+                           input=json.dumps({"steps": steps}) + "\n", stdout=subprocess.PIPE, stderr=subprocess.DEVNULL,
+                           timeout=120)
+        return json.loads(p.stdout.strip().splitlines()[-1])
+    except Exception:  # noqa: BLE001
+        return None
+
+
+def _isolate(ctx):
+    """a single save that fails *in this process* may fail only because of what earlier saves left behind.  The
+    smallest failure of each kind of message (they are the ones that become replays) is tried again in a fresh
+    interpreter: when the document written there is fine, the replay of that input alone would not reproduce — the
+    failures of that kind are kept (they are violations: the property quantifies over histories) but say so and are
+    listed after the failures that reproduce from their own input (the histories are self-contained)."""
+    groups = {}
+    for f in ctx.failures:
+        if f.kind == "property" and f.op == "closure":
+            groups.setdefault(f.detail[:60], []).append(f)
+    for sig, fs in sorted(groups.items(), key=lambda kv: min(f.size() for f in kv[1]))[:6]:
+        f = min(fs, key=lambda f: f.size())
+        docs = _in_fresh_process([f.inp])
+        if not docs or not isinstance(docs[0], dict) or "raise" in docs[0]:
+            continue
+        rec = {"inp": f.inp, "data": docs[0]}
+        try:
+            rec["doc"] = aoef.doc_to_model(docs[0])
+            rep = _model_many_safe(ctx, "closure", [{"doc": rec["doc"]}])[0]
+            out = _judge(ctx, rec, rep, None)
+            mo = ctx.model("reach", {"collection": f.inp["collection"]})
+        except Exception:  # noqa: BLE001
+            continue
+        if out.get("problems") or _cmp_closure(f.inp, out, mo):
+            continue                      # fails in a fresh process too: the input alone is the replay
+        for g in fs:
+            g.detail += (" [only after earlier saves in the same process: a fresh process writes a correct document "
+                         "for this input; the closure_history replays are self-contained sequences]")
+            g.size = lambda: 10 ** 9      # listed after the failures whose own input reproduces them
+        ctx.tally("kinds of failure that need the earlier saves of the process")
+
+
+def _run_closure(ctx, cases, op="closure", load=True, chunk=400):
+    """prepare (batched model requests) and judge, chunk by chunk"""
+    cases = list(cases)
+    for i in range(0, len(cases), chunk):
+        if _enough(ctx):
+            return
+        part = cases[i:i + chunk]
+        _prepare(ctx, part, load)
+        ctx.run_cases(OPS[op], part)
+        _PRE.clear()
+
+
+def _run_histories(ctx, hc, chunk=10):
+    for i in range(0, len(hc), chunk):
+        if sum(1 for f in ctx.failures if f.kind == "property" and f.op == "closure_history") >= 5:
+            return
+        part = hc[i:i + chunk]
+        _prepare_histories(ctx, part)
+        ctx.run_cases(OPS["closure_history"], part)
+        _PRE.clear()
 
 
 def _correspondence(ctx):
@@ -285,9 +903,29 @@ def _correspondence(ctx):
     ctx.run_corpus(OPS)
     ot = _wf_filter(ctx, [{"collection": c, "audio_dir": None} for c in _only_through(random.Random("C02-only-through"))])
     ctx.tally("only-reachable-through-one-path", len(ot))
-    ctx.run_cases(OPS["closure"], ot)
-    ctx.run_cases(OPS["closure"], _gen_cases(ctx, ctx.rng, ctx.budget(120, 4000)))
-    ctx.run_cases(OPS["closure"], _gen_cases(ctx, ctx.rng, ctx.budget(6, 30), size=2.5))
+    _run_closure(ctx, ot)
+    _run_closure(ctx, _directed(ctx, random.Random("C02-directed")))
+    ctx.exhaustive["child lists"] = ("clip annotation {sound_events, sequences, tags, notes}, clip prediction {sound_events, "
+                                     "sequences, tags}, recording {owners, tags, notes}, sound event / sequence annotation "
+                                     "{notes, tags, created_by}: every present/absent combination, every child fresh, in "
+                                     "every collection type that holds the object")
+    ctx.exhaustive["parent chains"] = "depth 0..5 x ancestors with/without sound events x annotation/prediction; two children of one parent and parent/child in both conversion orders"
+    rows = [k for k in ctx.tallies if k.startswith("only-path:")]
+    ctx.note(f"reference rows that were the only path to an identifier in some tree-shaped document: {len(rows)}")
+    cases = _gen_cases(ctx, ctx.rng, ctx.budget(120, 3000))
+    _run_closure(ctx, cases)
+    _run_closure(ctx, _gen_cases(ctx, ctx.rng, ctx.budget(6, 30), size=2.5))
+    # identifiers shared *across* kinds (a clip with the uuid of its recording, an annotation and a prediction with the
+    # uuid of their sound event): the lists of a document are per kind
+    cross = [dict(c, collection=x) for c in cases[::3] for x in [c02gen.cross_kind_uuids(c["collection"])] if x]
+    cross = _wf_filter(ctx, cross)
+    _run_closure(ctx, cross)
+    ctx.tally("identifiers shared across kinds", len(cross))
+    # one uuid, two contents (outside the coherence hypothesis): closure and parent order are monitored only
+    split = [dict(c, collection=s) for c in cases[::3] for s in [c02gen.split_identity(ctx.rng, c["collection"])] if s]
+    _in, outside = _wf_split(ctx, split)
+    _run_closure(ctx, outside, op="closure_nonwf", load=False)
+    ctx.tally("one uuid, two contents (monitored only)", len(outside))
     # the operational model (OpSave.lean: adapters as mutable tables, conversions in the code's call order) against
     # the real document *including* the order of the lists and the tag numbering.  Informational: the property does
     # not pin the order, so a disagreement is recorded, not reported (C02_opSave_refines proves opSave = save, and
@@ -307,22 +945,53 @@ def _correspondence(ctx):
     ctx.note(f"operational save model agrees with the real documents including list order and tag ids on {agree}/{len(sample)} collections")
     ctx.tally("op_save exact-order agreement", agree)
     ctx.tally("op_save exact-order cases", len(sample))
+    # one collection obtained in several ways (constructors, user-defined subclasses, model_validate, model_copy,
+    # tuples) and saved each time: the same identifiers again and again in one process
+    trees = [c for c in _wf_filter(ctx, c02gen.tree_cases(random.Random("C02-construct"))) if c["audio_dir"] is None]
+    vh = [{"steps": [dict(copy.deepcopy(c), how=how, share=False, label=None) for how in hows]}
+          for c in trees + ot for hows in (("plain", "subclass", "validate", "tuples"), ("subclass", "copy_deep", "validate_json", "copy_shallow"))]
+    _run_histories(ctx, vh)
+    ctx.tally("construction-variant histories (4 saves of one collection each)", len(vh))
     # histories: collections of several types over the same pools of objects, saved in one process
     hc = _history_cases(ctx.rng, ctx.budget(40, 300))
     oks = ctx.driver.call_many("C01", "wf", [{"collection": s["collection"]} for h in hc for s in h["steps"]])
     it = iter(oks)
     hc = [h for h in hc if all([next(it) for _ in h["steps"]])]
-    ctx.run_cases(OPS["closure_history"], hc)
-    ctx.tally("closure-history cases (5 saves each)", len(hc))
+    _run_histories(ctx, hc)
+    ctx.tally("closure-history cases (9-10 saves each, one process, one file, shared Python objects, one modified in place)", len(hc))
     # adapters.py as a state machine: random operation sequences on the real UserAdapter / TagAdapter
-    ctx.run_cases(OPS["adapter_ops"], _gen_adapter_ops(ctx.rng, ctx.budget(600, 20000)))
+    enforced, info = _gen_adapter_ops(ctx.rng, ctx.budget(600, 20000))
+    ctx.run_cases(OPS["adapter_ops"], enforced)
+    agree = 0
+    mouts = ctx.model_many("adapter_ops", [{"kind": c["kind"], "ops": _ops_of(c)} for c in info])
+    for c, mo in zip(info, mouts):
+        try:
+            agree += int(_impl_adapter_ops(c) == mo)
+        except Exception:  # noqa: BLE001
+            pass
+    ctx.note(f"tag adapter sequences that mix saving and loading or ask get_id for an unconverted tag (no save does; the "
+             f"outcome depends on the id numbering, which is not pinned): exact agreement with the operational model on {agree}/{len(info)}")
+    ctx.tally("adapter_ops informational agreement", agree)
+    ctx.tally("adapter_ops informational cases", len(info))
+    _isolate(ctx)
 
 
 def run(ctx):
+    _SCHEMA[0] = None
+    _TARGETS[0] = None
+    _TIE_REPORTED[0] = 0
+    _TIE_REPORTED[1] = 0
+    ctx.stage("tables", _tables, ctx)
+    ctx.stage("discharge", ctx.discharge, ["SoundeventModel.Aoef.RefTable", "Proofs.C02"])
     ctx.stage("correspondence", _correspondence, ctx)
 
 
 def search(ctx, failures):
+    """an obligation or a tie broke: look for a collection whose written document is not self-contained (the
+    schema-driven scan resolves references the model does not know against every definition list)"""
     _CTX[0] = ctx
     rng = random.Random("C02-search")
-    ctx.run_cases(OPS["closure"], _gen_cases(ctx, rng, 40))
+    _run_closure(ctx, _directed(ctx, random.Random("C02-search-directed")))
+    _run_closure(ctx, _gen_cases(ctx, rng, 40))
+    hc = _history_cases(rng, 10)
+    _run_histories(ctx, [h for h in hc if not _wf_split(ctx, h["steps"])[1]])
